@@ -82,6 +82,17 @@ def mutate_graph(impl, rng, g):
             g.attach_attackers()
         except Exception:
             pass
+    from maltoolbox.attackgraph import Attacker
+    # attacker ids that are not 0..n-1 in list order: an attacker added under an id with a gap, an earlier one removed
+    try:
+        if g.nodes and rng.random() < 0.3:
+            ids = [n.id for n in rng.sample(g.nodes, min(len(g.nodes), 2))]
+            g.add_attacker(Attacker(name=rng.choice(['zed', 'eve']), entry_points=[], reached_attack_steps=[]),
+                           attacker_id=g.next_attacker_id + rng.randint(1, 3), entry_points=ids[:1], reached_attack_steps=ids)
+        if len(g.attackers) >= 2 and rng.random() < 0.4:
+            g.remove_attacker(g.attackers[0])
+    except Exception:
+        pass
     for _ in range(rng.randint(0, 6)):
         r = rng.random()
         try:
